@@ -57,6 +57,9 @@ class SetupView:
     def expand(self, names, table):
         out = set()
         for p in names or ():
+            if p is not None and p in table:
+                out.add(p)  # an explicit name denotes exactly itself
+                continue
             for nm in table:
                 if tmpl_match(p, nm):
                     out.add(nm)
